@@ -133,7 +133,13 @@ impl Addr {
                         }
                     }
                 }
-                5 => p.iter_mut().for_each(|b| *b = b'a' + (rng.next() % 26) as u8),
+                5 => {
+                    p.iter_mut().for_each(|b| *b = b'a' + (rng.next() % 26) as u8);
+                    if rng.coin() {
+                        // an abstract name that fills the field: leading NUL, no terminator
+                        p[0] = 0;
+                    }
+                }
                 6 => {}
                 _ => p.iter_mut().for_each(|b| *b = 0xFF),
             }
